@@ -425,6 +425,59 @@ def instance_label(mode, key):
     return f"init[{MODES[mode]} {key.hex()} {nm}]"
 
 
+def check_variant(ex, label, mode, key, result, payload=None, prov=None):
+    """the definition the real selectors returned is the one the restated selection rules prescribe"""
+    from contracts.oracle import expected_definition_rules
+    st = ex.st
+    ids, _, paytabs = tables()
+    if not (isinstance(key, bytes) and len(key) == 2 and isinstance(mode, int)):
+        return
+    rules = expected_definition_rules(MODES[mode], key, ids)
+    if rules is None:
+        return
+    route = "payload" if payload is not None else "keywords"
+    tab = paytabs[mode]
+
+    def cond(c):
+        k = c[0]
+        if k == "true":
+            return True
+        if k == "not":
+            return ex.not_(cond(c[1]))
+        if k == "and":
+            return ex.bm.and_(cond(c[1]), cond(c[2]))
+        if k == "len":
+            return mk_bool(zint(payload.length()) == c[1])
+        if k == "byte":
+            return mk_bool(z3.And(zint(payload.length()) > c[1], payload.at(c[1]) == c[2]))
+        if k == "kw":
+            return prov.contains(ex.bm, c[1])
+        if k == "kwval":
+            p_ = prov.contains(ex.bm, c[1])
+            if p_ is False:
+                return False
+            v_ = prov._entry(c[1], None)[1]
+            return ex.bm.and_(p_, ex.bm.equals(v_, c[2])) if isinstance(v_, (SInt, int)) else False
+        raise ValueError(c)
+
+    earlier = False
+    for c, name in rules[route]:
+        applies = ex.bm.and_(ex.not_(earlier) if earlier is not False else True, cond(c))
+        earlier = ex.bm.or_(earlier, cond(c))
+        want = tab.get(name) if name is not None else None
+        if want is None and name is not None:
+            # GET variants defined in another table (e.g. RXM-PMP GET uses the SET definitions)
+            for t in paytabs:
+                if name in t:
+                    want = t[name]
+        if want is not result:
+            # this rule must not apply on the current path
+            st.prove(f"{label}/C02:variant", ex.not_(applies), kind="ensures",
+                     detail=f"selection rule for {name} applies but the selector returned {_def_name(result, mode)}",
+                     assume_after=False)
+    return
+
+
 def _after_get_dict(ex, fr, result):
     st = ex.st
     mon = st.ghost.get("monitor")
@@ -440,6 +493,8 @@ def _after_get_dict(ex, fr, result):
         mode_key = (MODES[mode], cls + mid)
     kw = fr.env.get("kwargs")
     if isinstance(kw, KwMap) and "payload" in kw.items:
+        if isinstance(payload, SBytes) and isinstance(cls, bytes) and isinstance(mid, bytes):
+            check_variant(ex, mon.label, mode, cls + mid, result, payload=payload)
         mon.got_dict(ex, obj, result, payload, bool(f.get("_parsebf")), mode_key)
 
 
@@ -472,7 +527,7 @@ def init_unit(ctx, res, col, reg, mode, key):
         ex._defaults_module = finfo.module
         # 0/1: any payload (any length), bitfields parsed / raw; 2: no payload;
         # 3/4: payload laid out according to the definition (C02's premise), bitfields parsed / raw
-        variant = st.choice(5, "variant")
+        variant = st.choice(7 if (key is not None and key in ids and key[0:1] in classes) else 5, "variant")
         if key is None:
             cb, ib = Base("ubxClass"), Base("ubxID")
             c_rope, i_rope = SBytes.view(cb, 0, 1), SBytes.view(ib, 0, 1)
@@ -488,29 +543,41 @@ def init_unit(ctx, res, col, reg, mode, key):
         sub = "nopayload"
         P = None
         conforming = variant in (3, 4)
+        addressing = {5: "names", 6: "ints"}.get(variant)
         if conforming and key in (b"\x06\x8b", b"\x06\x8a") and ((key == b"\x06\x8b" and mode == 0) or
                                                                    (key == b"\x06\x8a" and mode == 1)):
             raise PathEnd()  # CFG-VALGET / CFG-VALSET payloads are key/value lists: their layout is C14's subject
         if variant in (0, 1, 3, 4):
             pb = Base("payload")
             pn = z3.Int("payload_len")
-            st.assume(mk_bool(z3.And(pn >= 0, pn <= 65535)))
+            st.assume(mk_bool(pn >= 0))  # any length: payloads beyond 65535 bytes must be refused with a UBX* error
             st.inputs["payload"] = ("bytes", pb, pn)
             P = SBytes.view(pb, 0, pn)
             pbf = variant in (0, 3)
             kwargs = {"payload": P, "parsebitfield": pbf}
             sub = f"pbf={int(pbf)}" + (" conforming" if conforming else "")
+        if addressing == "names":
+            # only when the name is unambiguous (a name shared by two IDs is finding F-04a)
+            if sum(1 for v in ids.values() if v == ids[key]) != 1:
+                raise PathEnd()
+            a_cls, a_id = classes[key[0:1]], ids[key]
+            sub = "nopayload by-names"
+        elif addressing == "ints":
+            a_cls, a_id = key[0], key[1]
+            sub = "nopayload by-ints"
+        else:
+            a_cls, a_id = c_rope, i_rope
         lab = f"{label[:-1]} {sub}]"
         mon = Monitor(lab, conforming)
         st.ghost["monitor"] = mon
         st.ghost["monitor_obj"] = obj.id
-        env = {"self": obj, "ubxClass": c_rope, "ubxID": i_rope, "msgmode": mode, "parsebitfield": pbf,
+        env = {"self": obj, "ubxClass": a_cls, "ubxID": a_id, "msgmode": mode, "parsebitfield": pbf,
                "kwargs": KwMap({k: v for k, v in kwargs.items() if k != "parsebitfield"})}
         cfr = ContractFrame(finfo, env)
         entry_max = st._next_id
         snapshot_olds(ex, contract, cfr, contract.ensures + contract.ensures_exc)
         st.writes = []
-        args = [obj, c_rope, i_rope, mode]
+        args = [obj, a_cls, a_id, mode]
         try:
             ex.call_funcinfo(finfo, args, dict(kwargs), verifying=False)
             outcome = ("return", None)
@@ -600,6 +667,20 @@ def replay_instance(o):
     elif what == "modifies":
         info["reproduced"] = bool(out.getvalue())
         info["stdout"] = out.getvalue()[:200]
+    elif what.startswith("C02:variant") and "payload" in kwargs:
+        from contracts.oracle import native_expected_definition
+        ids, _, paytabs = tables()
+        pls = [kwargs["payload"]] + [bytes([a, b]) + bytes(n) for n in (0, 2, 10, 14, 18) for a in (0, 1, 2, 0xFF) for b in (0, 1, 0xFF)]
+        for pl in pls:
+            want = native_expected_definition(MODES[mode], cls + mid, ids, paytabs, payload=pl)
+            try:
+                got = UBXMessage(cls, mid, mode, payload=pl)._get_dict(payload=pl) if pl else None
+            except Exception:  # noqa
+                got = None
+            if got is not None and want is not None and _def_name(got, mode) != want:
+                info.update(reproduced=True, observed=f"payload {pl.hex()} is parsed with definition {_def_name(got, mode)}, the selection rules prescribe {want}")
+                info["call"] = f"UBXMessage({cls!r}, {mid!r}, {mode}, payload={pl!r})"
+                break
     elif what.startswith("C02:conforming-payload-parses"):
         info["reproduced"] = exc is not None
     elif what.startswith("C08:inspect:") and msg is not None:
@@ -860,6 +941,11 @@ def _discriminator_of(mode, key):
 def _kw_after_get_dict(ex, fr, result):
     prov = ex.st.ghost.get("kwprovider")
     if prov is not None and isinstance(result, dict):
+        obj = fr.env["self"]
+        f = ex.st.rec(obj)["fields"]
+        cls, mid, mode = f.get("_ubxClass"), f.get("_ubxID"), f.get("_mode")
+        if isinstance(cls, bytes) and isinstance(mid, bytes) and not prov.anyvals:
+            check_variant(ex, ex.st.ghost.get("kw_label", "kwinit"), mode, cls + mid, result, prov=prov)
         prov.set_definition(result)
         ex.st.ghost["kw_pdict"] = result
 
@@ -882,6 +968,7 @@ def kwargs_unit(ctx, res, col, reg, mode, key, flavour="typed"):
         st.ghost["finite_floats"] = True  # non-discriminator values are typed and finite in both flavours
         prov = KwProvider(ex, anyvals=_discriminator_of(mode, key) if flavour == "anydisc" else ())
         st.ghost["kwprovider"] = prov
+        st.ghost["kw_label"] = label
         obj = ex.bm.new_object(cls)
         kw = KwMap({}, sym=prov)
         env = {"self": obj, "ubxClass": key[0:1], "ubxID": key[1:2], "msgmode": mode, "parsebitfield": True, "kwargs": kw}
@@ -1026,6 +1113,28 @@ def replay_kwinit(o):
     model_kw = {k[3:]: v for k, v in (o.inputs or {}).items() if k.startswith("kw_") and isinstance(v, (int, bytes))}
     names = sorted({v for k, v in ids.items() if k[0:2] == key})
     tries = 0
+    if "C02:variant" in o.name:
+        from contracts.oracle import native_expected_definition, expected_definition_rules
+        rules = expected_definition_rules(MODES[mode], key, ids) or {"keywords": []}
+        cands = [{}]
+        for c, nm in rules["keywords"]:
+            if c[0] == "kw":
+                cands += [{c[1]: v} for v in (0, 1, 7, 255)]
+            elif c[0] == "kwval":
+                cands += [{c[1]: c[2]}, {c[1]: (c[2] + 1) % 256}]
+        for kw in cands:
+            if not kw:
+                continue
+            want = native_expected_definition(MODES[mode], key, ids, paytabs, kwargs=kw)
+            try:
+                got = UBXMessage(key[0:1], key[1:2], mode, **kw)._get_dict(**kw)
+            except Exception:  # noqa
+                continue
+            if want is not None and _def_name(got, mode) != want:
+                info.update(reproduced=True, kwargs=repr(kw), observed=f"keywords {kw!r} select definition {_def_name(got, mode)}, the selection rules prescribe {want}")
+                return info
+        info["note"] = "no keyword set found natively that selects a definition other than the prescribed one"
+        return info
     for attempt in range(400):
         for nm in names:
             defn = paytabs[mode].get(nm)
